@@ -1094,12 +1094,8 @@ def causes_of(p):
                     found.add("nan_constant")
                 elif math.isinf(v):
                     found.add("infinite_constant")
-                elif v == 0.0 and math.copysign(1.0, v) < 0 and parent_pow_base:
-                    found.add("negative_zero_constant")
         elif isinstance(t, er.ListTerm):
             vals = [x.value if isinstance(x, er.Value) else x for x in t.value]
-            if len(vals) == 0 or (len(vals) == 1 and (isinstance(vals[0], bool) or vals[0] is None or (isinstance(vals[0], (int, float)) and (vals[0] < 0 or math.copysign(1.0, vals[0]) < 0)))):
-                found.add("list_of_at_most_one_element")
             for v in vals:
                 if isinstance(v, float) and (math.isnan(v) or math.isinf(v)):
                     found.add("infinite_constant" if math.isinf(v) else "nan_constant")
